@@ -149,6 +149,26 @@ def gen_step(rng, pool):
     qbs = [v for v in pool if is_qb(v)]
     if not qbs:
         return None
+    qbits = [v for v in pool if is_qbits(v)]
+    if qbits and rng.random() < 0.08:
+        # packed low-bit operand: only detach / moves are intercepted, every other op dequantizes
+        v = rng.choice(qbits)
+        r = v.ndim
+        name, fn, rel = rng.choice([
+            ("qbits-detach", lambda x: x.detach(), "exact"),
+            ("qbits-neg", lambda x: -x, "exact"),
+            ("qbits-mul", lambda x: x * 2.0, "exact"),
+            ("qbits-transpose", lambda x: x.transpose(0, 1), "exact"),
+            ("qbits-t", lambda x: x.t(), "exact"),
+            ("qbits-view", lambda x: x.reshape(-1), "exact"),
+            ("qbits-select", lambda x: x[0], "exact"),
+            ("qbits-relu", lambda x: torch.relu(x), "exact"),
+            ("qbits-sum", lambda x: x.sum(), "exact"),
+            ("qbits-to-dtype", lambda x: x.to(torch.float32 if x.dtype != torch.float32 else torch.float16), "refusal"),
+            ("qbits-to-cpu", lambda x: x.to("cpu"), "exact"),
+            ("qbits-matmul", lambda x: torch.matmul(torch.ones(2, x.shape[0], dtype=x.dtype), x), "exact"),
+        ])
+        return Step(name, [], [v], fn, rel, model=False)
     v = rng.choice(qbs)
     r = v.ndim
     shape = list(v.shape)
